@@ -2,19 +2,15 @@
 (* Phase G: the sequential walk (sequentialWalkDepth) is deterministic, so every configuration has
    exactly one behaviour; it is printed as the exact sequence of observable callback invocations
    (visit / getLinks / OnMissing / OnError / StartProviding) plus the terminal observables.
-   Case sources: GenCasesA/B (enumerated here) or cases.ndjson (larger DAGs sampled by the driver;
+   Case sources: the G families of MCDagWalk (exhaustive) and cases.ndjson (larger DAGs sampled by the driver;
    the expected behaviour is still computed by this spec). *)
 EXTENDS MCDagWalk
-CONSTANT RootOk     \* family B: keep only configurations whose root can be fetched
 VARIABLE hist
 gvars == <<vars, hist>>
 
 FileCases == LET s == ndJsonDeserialize("cases.ndjson") IN {s[i] : i \in 1..Len(s)}
-
-\* all nodes reachable, three nodes: the shapes chain / fan / diamond in both link orders
-ConnGraphs == {g \in Graphs : \A i \in 2..MCN : \E p \in 1..(i - 1) : i \in ToSet(g[p])}
-GenCasesA == MCCasesNorm
-GenCasesB == {c \in MCCasesNorm : c.links \in ConnGraphs /\ (RootOk => c.status[1] = "ok")}
+GQuick    == Norm(GShapeQ \cup GHandQ) \cup FileCases
+GThorough == Norm(GShapeT \cup GHandT) \cup FileCases
 
 Log(e) == hist' = Append(hist, e)
 GNext ==
